@@ -42,6 +42,44 @@ def mkMatches (ctx : Ctx) (a : Expr) (ps : List MPat) : Option Expr :=
     | [m] => mkMatch1 a m
     | ms => .op1 .rany (catList (ms.map (mkMatch1 a)))
 
+/-- `self[i]` for an integer `i`: out of range is an IndexError (`none`) -/
+def mkIndex (ctx : Ctx) (a : Expr) (i : Int) : Option Expr :=
+  let w : Int := widthOf ctx a
+  if -w ≤ i ∧ i < w then
+    let k := (if i < 0 then i + w else i).toNat
+    some (.slice a k (k + 1))
+  else none
+
+/-- `len(range(start, stop, step))` -/
+def sliceLen (start stop step : Int) : Nat :=
+  if step > 0 then (if stop > start then ((stop - start + step - 1) / step).toNat else 0)
+  else (if start > stop then ((start - stop + (-step) - 1) / (-step)).toNat else 0)
+
+/-- the positions `range(start, stop, step)` selects -/
+def slicePositions (start stop step : Int) : List Int :=
+  (List.range (sliceLen start stop step)).map fun (j : Nat) => start + (j : Int) * step
+
+/-- `self[start:stop:step]` with the indices already normalised by `slice.indices(len(self))` (so that every
+selected position is a bit of `self`; anything else is `none`: `slice.indices` cannot produce it):
+`Slice(self, start, stop)` for step 1 (an IndexError when start > stop), else `Cat(self[i] for i in range(...))` -/
+def mkSliceStep (ctx : Ctx) (a : Expr) (start stop step : Int) : Option Expr :=
+  let w : Int := widthOf ctx a
+  if step = 0 then none
+  else if step = 1 then
+    (if 0 ≤ start ∧ start ≤ stop ∧ stop ≤ w then some (.slice a start.toNat stop.toNat) else none)
+  else if (slicePositions start stop step).all (fun p => decide (0 ≤ p) && decide (p < w)) then
+    some (catList ((slicePositions start stop step).map fun p => .slice a p.toNat (p.toNat + 1)))
+  else none
+
+/-- `Array(elems)[index]` as a value (`ArrayProxy.as_value`): a `SwitchValue` over the index with one case per element
+an index of that width can reach, no default -/
+def mkArrayFrom (ctx : Ctx) (idx : Expr) : Nat → List Expr → Expr
+  | _, [] => Expr.nil
+  | k, e :: es => .ite idx [toBinary k (widthOf ctx idx)] e (mkArrayFrom ctx idx (k + 1) es)
+
+def mkArray (ctx : Ctx) (idx : Expr) (elems : List Expr) : Expr :=
+  mkArrayFrom ctx idx 0 (elems.take (2 ^ widthOf ctx idx))
+
 def mkDerived (ctx : Ctx) : DOp → List Expr → Option Expr
   | .abs, [a] => some (mkAbs ctx a)
   | .shiftLeft n, [a] => some (mkShl ctx a n)
@@ -51,6 +89,9 @@ def mkDerived (ctx : Ctx) : DOp → List Expr → Option Expr
   | .replicate k, [a] => some (mkReplicate a k)
   | .mux, [sel, v1, v0] => some (mkMux ctx sel v1 v0)
   | .matches ps, [a] => mkMatches ctx a ps
+  | .index i, [a] => mkIndex ctx a i
+  | .sliceStep start stop step, [a] => mkSliceStep ctx a start stop step
+  | .arrayIndex, idx :: elems => some (mkArray ctx idx elems)
   | _, _ => none
 
 end Amaranth
